@@ -11,6 +11,7 @@ class C12(Spec):
         "C12.allow_iff_spec",
         "C12.localkey_iff",
         "C12.exec_ok_implies_covered",
+        "C12.local_ok_prefix",
     )
     level_text = (
         "Lean theorems about a byte-level model of isAllowKeyWrite / FindExecer / GetExecKey / GetParaExec / "
@@ -19,7 +20,8 @@ class C12(Spec):
         "by deposit address; two pre-ForkExecKey exceptions) for every configuration, address function and friend "
         "oracle (allow_iff_spec); isAllowLocalKey2 accepts exactly LODB-<execer>-<non-empty> (localkey_iff); a "
         "successful execTxOne implies every StateDB-written key is in the receipt and every receipt key is in the "
-        "grammar (exec_ok_implies_covered), local KVs carry the prefix (exec_ok_local_prefix). Tie: the real "
+        "grammar (exec_ok_implies_covered), local KVs accepted by execLocalTx (execution-time and AddBlock path) carry "
+        "the prefix (local_ok_prefix, exec_ok_local_prefix). Tie: the real "
         "predicates are called in-process on >= 1e5 generated (key, execer) pairs under a main-chain config (before/"
         "after ForkExecKey) and a user.p.x. para config and compared with the model byte for byte and with an "
         "independent string-splitting grammar; synthetic executors write such keys in real blocks (receipts compared)."
@@ -28,7 +30,9 @@ class C12(Spec):
         "drivers.ExecAddress (a hash) and the friend decision of the owning driver are parameters of the theorems; "
         "in the tie the addresses come from the real function and the friend rule is the synthetic drivers' "
         "(prefix mavl-<self>-fr-, caller's real name vfa); system drivers coins/manage/none answer false for the "
-        "transaction shapes used. Block executions run on the main chain only (para names there fall to the none driver)."
+        "transaction shapes used. Block executions run on the main chain only (para names there fall to the none driver). "
+        "procExecDelBlock -> checkPrefix (ExecDelLocal KVs) is not modelled: it applies the same isAllowLocalKey, whose "
+        "characterisation localkey_real_iff covers, and is exercised by the pure run only."
     )
     assumptions = (
         "drivers.ExecAddress is an arbitrary function of the executor name (theorems hold for every such function)",
